@@ -75,7 +75,7 @@ func c14Gen(seed uint64, run int, tier string) *Case {
 				if r.Pct(12) {
 					// a further open of the same file (now and then by way of a symbolic link): what one handle
 					// writes, the others must read
-					ops = append(ops, Op{K: "reopen", A: []int64{int64(f), int64(r.Intn(2)), int64(r.Pick(0, 2, 2))}})
+					ops = append(ops, Op{K: "reopen", A: []int64{int64(f), int64(r.Intn(2)), int64(r.Pick(0, 2, 2, 1|16, 2|16))}}) // OREAD, ORDWR, or with OTRUNC: the file is emptied by the open
 				}
 				ops = append(ops, Op{K: kind, A: []int64{int64(f), int64(off), int64(cnt), int64(r.Intn(4))}})
 			}
@@ -192,13 +192,21 @@ func c14Caller(x *Ctx, u *UfsSys, clnt *go9p.Clnt, ci int, ops []Op) {
 			}
 			f.hs = append(f.hs, &c14Handle{fid: g.Fid, file: g})
 			x.Probe("file-open-several-times")
+			if op.a(2)&16 != 0 {
+				f.model = f.model[:0]
+				if b, err := os.ReadFile(filepath.Join(u.Root, f.name)); err != nil || len(b) != 0 {
+					viol("e3-disk", "after FOpen(%q) with OTRUNC the underlying file has %d bytes", name, len(b))
+				}
+				x.Probe("open-with-otrunc")
+			}
 			continue
 		}
 		f.c14Handle = f.hs[0]
 		if len(op.A) > 3 {
 			f.c14Handle = f.hs[int(op.a(3))%len(f.hs)]
 		}
-		if f.fid.Mode&3 == go9p.OREAD && (op.K == "cwrite" || op.K == "fwrite" || op.K == "writeat" || op.K == "written") {
+		isWrite := op.K == "cwrite" || op.K == "fwrite" || op.K == "writeat" || op.K == "written"
+		if (f.fid.Mode&3 == go9p.OREAD && isWrite) || (f.fid.Mode&3 == go9p.OWRITE && !isWrite) {
 			f.c14Handle = f.hs[0] // the first handle is open for reading and writing
 		}
 		osMark = len(x.S.OSLog)
